@@ -1,7 +1,7 @@
 from typing import Union, Any, TYPE_CHECKING, Callable, Optional
 import logging
 
-from dliswriter.utils.internal.struct_writer import write_struct, write_struct_ascii, write_struct_uvari
+from dliswriter.utils.internal.struct_writer import write_struct, write_struct_ident, write_struct_uvari
 from dliswriter.utils.internal.internal_enums import RepresentationCode
 from dliswriter.utils.enums import Unit
 from dliswriter.utils.internal.converters import ReprCodeConverter
@@ -218,7 +218,7 @@ class Attribute:
         """Transform the attribute to bytes and characteristics needed for an EFLRSet template."""
 
         if self._label:
-            bts += write_struct_ascii(self._label)
+            bts += write_struct_ident(self._label)
             characteristics += '1'
         else:
             characteristics += '0'
@@ -258,7 +258,7 @@ class Attribute:
 
         # units
         if self._units:
-            bts += write_struct_ascii(self._units)
+            bts += write_struct_ident(self._units)
             characteristics += '1'
         else:
             characteristics += '0'
